@@ -66,19 +66,39 @@ def rule_r1(ctx, rid="C12.R1"):
             ctx.r.violation(rid, key_of(f, n.ast, "append-before-wait"), "%s is not dominated by the watermark wait" % what, f.loc(n.ast))
         # post-wake connected test: a guard `self.connected` True whose test node is dominated by the wait
         ok = False
+        tests = []
         for (t, pol, b) in g.guards(n):
             if pol is True and dotted(t) == "self.connected" and any(g.dominates(w, b) for w in waits):
                 # failing branch raises
                 other = [x for x in g.nodes if x.kind == "branch" and x.ast is getattr(t, "_guard_of", t) and x.polarity is False]
                 if other and g.exit.id not in g.reach(other[0], follow_exc=True) | set():
                     ok = True
+                    tests.append(b)
                 elif other:
                     # reaches exit only exceptionally?
-                    ok = g.path(other[0], g.exit, follow_exc=False) is None
+                    if g.path(other[0], g.exit, follow_exc=False) is None:
+                        ok = True
+                        tests.append(b)
         if ok:
             ctx.r.ok(rid, "%s only after the post-wake disconnect test" % what, f.loc(n.ast))
         else:
             ctx.r.violation(rid, key_of(f, n.ast, "no-postwake-check"), "%s is not guarded by a connected test after waking (a released producer would append to a dead channel)" % what, f.loc(n.ast))
+        # test and append are one critical section: the teardown flips `connected` and closes the buffers under the output
+        # lock, so a test made outside it (or separated from the append by a point where the lock is given up) can pass
+        # just before the teardown and the append lands on a closed channel - nothing ever closes what was appended
+        if ok:
+            from ..locks import get_locks
+            lk = get_locks(p)
+            atomic = False
+            for b in tests:
+                fwd = g.reach(b, follow_exc=False)
+                between = [x for x in g.nodes if x.id in fwd and x is not n and x.ast is not None and x.kind in ("stmt", "test", "branch", "iter") and n.id in g.reach(x, follow_exc=False)]
+                if all(OUT_LOCK in lk.held_at(f, x) for x in [b, n] + between) and not any(x in waits for x in between if x is not b):
+                    atomic = True
+            if atomic:
+                ctx.r.ok(rid, "%s and the disconnect test are in one output-lock region" % what, f.loc(n.ast))
+            else:
+                ctx.r.violation(rid, key_of(f, n.ast, "postwake-check-not-atomic"), "%s is not in the same output-lock region as the connected test that guards it: the I/O thread's teardown can run in between, the data (a file wrapper included) is queued on a closed channel and never closed" % what, f.loc(n.ast))
 
 
 def _wait_loops(ctx):
@@ -431,7 +451,25 @@ def rule_r9(ctx):
     c13.rule_r5(ctx, rid="C12.R9")
 
 
-RULES = [rule_r1, rule_r2, rule_r3, rule_r4, rule_r5, rule_r6, rule_r7, rule_r8, rule_r9]
+def rule_r10(ctx, rid="C12.R10"):
+    ctx.r.rule(rid, "no thread blocks on a lock it already holds: a lock that is not re-entrant (threading.Lock, or a Condition built on one) is never acquired (with / blocking acquire) where the same thread may hold it - in the same function or along a call chain (the producer takes the output lock in write_soon and again in the pause helper: with a plain Lock it would stop at the mark for ever, and neither a drain nor a disconnect could release it)")
+    from ..locks import get_locks, reacquisitions
+    lk = get_locks(ctx.p)
+    bad, nsites = reacquisitions(ctx.p)
+    kinds = sorted("%s:%s" % kv for kv in lk.table.kind.items())
+    ctx.r.floor(rid, len(kinds), 2, "lock objects of the package")
+    if not bad:
+        ctx.r.ok(rid, "locks %s; %d blocking acquisitions of non-reentrant locks, none nested" % (", ".join(kinds), nsites), "src/waitress")
+    seen = set()
+    for lid, f, st, how in bad:
+        k = key_of(f, None, "self-deadlock::" + lid)
+        if k in seen:
+            continue
+        seen.add(k)
+        ctx.r.violation(rid, k, "%s acquires %s, which is not re-entrant, while the same thread may hold it (%s): the thread blocks on itself for ever" % (f.qual, lid, how), f.loc(st))
+
+
+RULES = [rule_r1, rule_r2, rule_r3, rule_r4, rule_r5, rule_r6, rule_r7, rule_r8, rule_r9, rule_r10]
 
 from ..selftest import M, T, V  # noqa: E402
 
